@@ -4,7 +4,7 @@
    Model: Shared/PP.v (istep: the two stacks of preprocess_file; rstep: frame-stack reference),
    Shared/CondExpr.v; tie: harness/props/c08.py. *)
 From Coq Require Import ZArith.
-From FV Require C08.Expand.
+From FV Require C08.Expand C08.Args.
 From FV Require Import Base.Str Shared.CondExpr Shared.PP C08.Model C08.Proofs.
 
 (* For every well-formed directive sequence (any nesting depth, any length), every initial macro
@@ -86,3 +86,19 @@ Example macro_expansion_nonvacuous :
   = [121; 61; 40; 49; 43; 50; 41; 43; 77; 88; 95; 122; 32; 120; 77; 88; 40; 40; 49; 43; 50; 41; 41]%N.
 Proof. exact Expand.expand_nonvacuous. Qed.
 Print Assumptions macro_expansion_nonvacuous.
+
+(* the arguments of a call: any number of arguments, each with balanced parentheses/brackets, closed literals and no comma
+   outside them, written between the parentheses and separated by commas, are read back exactly, with the text behind the call *)
+Theorem call_arguments_read_back : forall l rest,
+  l <> [] -> Forall (fun a => Args.argument a = true) l ->
+  Args.call_args (Args.join_comma l ++ Args.RPAR :: rest) = Some (l, rest).
+Proof. exact Args.arguments_read_back. Qed.
+Print Assumptions call_arguments_read_back.
+
+(* ... and the call becomes the body with the parameters replaced by the arguments, followed by the rest of the line *)
+Theorem call_replaced_by_body_with_arguments : forall isw params body l rest,
+  l <> [] -> Forall (fun a => Args.argument a = true) l -> length l = length params ->
+  Args.expand_call isw params body (Args.join_comma l ++ Args.RPAR :: rest)
+  = Some (Expand.expand isw (combine params l) body ++ rest).
+Proof. exact Args.call_expanded. Qed.
+Print Assumptions call_replaced_by_body_with_arguments.
